@@ -785,6 +785,11 @@ func (vfs *OrefaFS) RemoveAll(path string) error {
 	parent, parentOk := vfs.nodes[dirName]
 
 	if !childOk || !parentOk {
+		if err := vfs.errNotFoundLocked(absPath, nil); err != nil {
+			// A file is used as a directory in the path.
+			return &fs.PathError{Op: "removeall", Path: path, Err: err}
+		}
+
 		return nil
 	}
 
